@@ -87,7 +87,11 @@ Theorem C18_value_versions_monotone_and_change_on_upd cf s : WF s ->
       d_val (get_dv k (fst (step cf s (SetDV k v)))) = v /\ d_valver (get_dv k (fst (step cf s (SetDV k v)))) = S (d_valver (get_dv k s))) /\
   qvs (fst (step cf s (Upd WQ))) = (S (qv s), uv s, zv s) /\ qvs (fst (step cf s (Upd WU))) = (qv s, S (uv s), zv s) /\
   qvs (fst (step cf s (Upd WZ))) = (qv s, uv s, S (zv s)) /\ qvs (fst (step cf s (Upd WY))) = (S (qv s), S (uv s), S (zv s)) /\
-  qvs (fst (step cf s (Upd WT))) = qvs s.
+  qvs (fst (step cf s (Upd WT))) = qvs s /\
+  (forall ss, has_sub s ss = true ->
+      qvs (fst (step cf s (UpdSub WQ ss))) = (S (qv s), uv s, zv s) /\ qvs (fst (step cf s (UpdSub WU ss))) = (qv s, S (uv s), zv s) /\
+      qvs (fst (step cf s (UpdSub WZ ss))) = (qv s, uv s, S (zv s)) /\
+      (forall w, w = WUW \/ w = WZW \/ w = WQEW \/ w = WUEW -> qvs (fst (step cf s (UpdSub w ss))) = qvs s)).
 Proof. exact (value_versions_monotone_and_change_on_upd cf s). Qed.
 Print Assumptions C18_value_versions_monotone_and_change_on_upd.
 
